@@ -194,6 +194,9 @@ class Inliner:
         # nested function parameters are stores too (handled by _stored_names through ast.arg)
         self.counter += 1
         tag = f"__inl{self.counter}"
+        # locals brought in by earlier expansions are the caller's names now: a second expansion of the same helper
+        # must not share them (flow-insensitive readers would merge the two)
+        caller_names = set(caller_names) | getattr(self, "introduced", set())
         subst: Dict[str, ast.AST] = {}
         renames: Dict[str, str] = {}
         prologue: List[ast.stmt] = []
@@ -226,6 +229,7 @@ class Inliner:
         if not done:
             new_body += sink(None, call)
         self.inlined.append(qual)
+        self.introduced = getattr(self, "introduced", set()) | {renames.get(n, n) for n in stored} | set(renames.values())
         result = prologue + new_body
         if level < self.depth:
             result = self._block(result, caller_names | set(renames.values()) | stored, level + 1)
